@@ -331,7 +331,9 @@ class JsonSchemaGenerator:
                 dependent_required[name] = field.dependencies
             if field.is_required(options or self.options):
                 # will count options.ignore_required in
-                required.append(name)
+                if not (self.output and callable(field.no_output)):
+                    # a value-dependent no_output may hide the value from the output
+                    required.append(name)
             elif self.output:
                 if (
                     not field.no_default
@@ -347,7 +349,9 @@ class JsonSchemaGenerator:
         data.update(properties=properties)
         if required:
             data.update(required=required)
-        if dependent_required:
+        if dependent_required and not self.output:
+            # dependencies are a rule about what the input provides; in the output a dependency
+            # may be legitimately absent (no_output, mode, deferred default)
             data.update(dependentRequired=dependent_required)
         addition = options.addition
         if addition is not None:
